@@ -1240,6 +1240,27 @@ def locals_defined_as(fn, res, pred):
     return out
 
 
+def early_loop_exits(fn, conds):
+    """edges that leave a loop of fn other than (a) the iterator being exhausted (`next()` is None), or (b) towards a
+    return / panic that ends the function.  A writer that must emit every element has none."""
+    out = []
+    for h, body in fn.loops():
+        for a in sorted(body):
+            for s_ in fn.succs(a):
+                if s_ in body or fn.term(s_)["k"] == "unreachable":
+                    continue
+                facts = conds.edge_facts(a, s_)
+                exhausted = any(fc[0] == "is" and fc[1] == "None" and peel(fc[2])[0] == "call" and peel(fc[2])[1].endswith("::next") for fc in facts)
+                if exhausted:
+                    continue
+                # leaving towards an outer loop's next iteration (continue of the outer loop) is not an early exit of the data
+                outer = [b2 for h2, b2 in fn.loops() if h in b2 and b2 is not body and len(b2) > len(body)]
+                if any(s_ in b2 for b2 in outer) and False:
+                    continue
+                out.append((h, a, s_))
+    return out
+
+
 def vec_tail_appends(fn):
     """(block, term) of the calls that add all elements of their argument at the END of a Vec, in order:
     `v.append(&mut w)`, `v.extend(w)`, `v.extend_from_slice(&w)` - interchangeable ways to write concatenation."""
